@@ -108,13 +108,14 @@ def floatK (num den total : Nat) : Nat :=
 def orcStr (c : Cfg) (r : Hist.Rolling) : String :=
   ",".intercalate ((CBH.oracleOf floatK c r).map fun e => toString e.2)
 
-/-- ` hist-mismatch …` when the op line carries `q=` and it is not what the model computes from its histogram -/
+/-- ` hist-mismatch …` when the `q=` of the op line (none = empty) is not what the model computes from its histogram;
+    the harness prints ` oracle-mismatch=<its own values>` in the same situation (a stale `q=` in a shrunk or hand-written
+    scenario): the plugins' `canon` compares the two by the values each side computed -/
 def mismatch (c : Cfg) (r : Hist.Rolling) (f : List String) : String :=
-  match Driver.kv f "q" with
-  | none => ""
-  | some v =>
-    let m := orcStr c r
-    if v == m then "" else " hist-mismatch model=" ++ m ++ " impl=" ++ v
+  if c.cond.quantiles.isEmpty then "" else
+  let v := (Driver.kv f "q").getD ""
+  let m := orcStr c r
+  if v == m then "" else " hist-mismatch model=" ++ m ++ " impl=" ++ v
 
 /-- latency in ns of the request `id` completing now -/
 def latency (s : St) (id : String) : Nat := s.now - (s.starts.lookup id).getD s.now
